@@ -7,6 +7,10 @@
 (*  safe path  = sendNoMetrics / prepareSendVia:                           *)
 (*               [lock] c := Add(1); if c >= Ceiling { Store(Ceiling);     *)
 (*               [unlock] refuse } ; Seal; [unlock]                        *)
+(*  drop path  = prepareSendVia whose out buffer is too small for the      *)
+(*               relayed payload: the counter is reserved like on the safe  *)
+(*               path, then the send is abandoned (ErrShortBuffer) WITHOUT  *)
+(*               reaching the cipher; the reserved counter stays consumed.  *)
 (*  Seal       = CipherState.EncryptDanger: refuses n >= Ceiling           *)
 (*  lock       = ConnectionState.writeLock, taken iff LockNeeded           *)
 (*               (noiseutil.EncryptLockNeeded: boring / FIPS builds)       *)
@@ -25,7 +29,7 @@ CONSTANTS Senders,     \* set of sender ids
           Grain        \* "fine" | "gate"
 
 VARIABLES ctr,        \* ConnectionState.messageCounter
-          path,       \* path[g] \in {"fast","safe"}: chosen once
+          path,       \* path[g] \in {"fast","safe","drop"}: chosen once
           pc,         \* pc[g]
           mine,       \* counter reserved by g
           lock,       \* holder of writeLock or "none"
@@ -38,7 +42,8 @@ vars == <<ctr, path, pc, mine, lock, used, order, refused>>
 None == "none"
 
 Init == /\ ctr \in Starts
-        /\ path \in [Senders -> {"fast", "safe"}]
+        /\ path \in [Senders -> {"fast", "safe", "drop"}]
+        /\ Cardinality({g \in Senders : path[g] = "drop"}) <= 1
         /\ pc = [g \in Senders |-> "idle"]
         /\ mine = [g \in Senders |-> 0]
         /\ lock = None
@@ -61,7 +66,7 @@ ReserveFast(g) == /\ CanReserve(g) /\ path[g] = "fast"
                   /\ UNCHANGED <<path, lock, used, order, refused>>
 
 \* NextMessageCounter: c := Add(1); if c >= Ceiling { Store(Ceiling); return false }
-ReserveSafeAdd(g) == /\ CanReserve(g) /\ path[g] = "safe"
+ReserveSafeAdd(g) == /\ CanReserve(g) /\ path[g] \in {"safe", "drop"}
                      /\ ctr' = ctr + 1 /\ mine' = [mine EXCEPT ![g] = ctr + 1]
                      /\ IF ctr + 1 >= Ceiling
                           THEN IF Grain = "gate"
@@ -74,7 +79,7 @@ ReserveSafeAdd(g) == /\ CanReserve(g) /\ path[g] = "safe"
                      /\ UNCHANGED <<path, used, order>>
 
 \* gate grain: Add + Store(Ceiling) + refuse as one step
-ReserveSafeRefuse(g) == /\ Grain = "gate" /\ CanReserve(g) /\ path[g] = "safe"
+ReserveSafeRefuse(g) == /\ Grain = "gate" /\ CanReserve(g) /\ path[g] \in {"safe", "drop"}
                         /\ ctr + 1 >= Ceiling
                         /\ ctr' = Ceiling /\ mine' = [mine EXCEPT ![g] = ctr + 1]
                         /\ pc' = [pc EXCEPT ![g] = "done"]
@@ -90,7 +95,7 @@ Pin(g) == /\ pc[g] = "pinning"
           /\ UNCHANGED <<path, mine, used, order>>
 
 \* EncryptDanger(n): refused at or beyond the ceiling, otherwise one AEAD encryption with nonce n
-Seal(g) == /\ pc[g] = "reserved"
+Seal(g) == /\ pc[g] = "reserved" /\ path[g] # "drop"
            /\ IF mine[g] >= Ceiling
                 THEN /\ refused' = refused \cup {g}
                      /\ UNCHANGED <<used, order>>
@@ -103,7 +108,15 @@ Seal(g) == /\ pc[g] = "reserved"
            /\ Release(g)
            /\ UNCHANGED <<ctr, path, mine>>
 
-Next == \E g \in Senders : Lock(g) \/ ReserveFast(g) \/ ReserveSafeAdd(g) \/ ReserveSafeRefuse(g) \/ Pin(g) \/ Seal(g)
+\* the send is given up after the counter was reserved: nothing reaches the cipher, the counter is NOT handed back
+\* (other senders may have reserved higher counters meanwhile)
+Abandon(g) == /\ pc[g] = "reserved" /\ path[g] = "drop"
+              /\ pc' = [pc EXCEPT ![g] = "done"]
+              /\ refused' = refused \cup {g}
+              /\ Release(g)
+              /\ UNCHANGED <<ctr, path, mine, used, order>>
+
+Next == \E g \in Senders : Lock(g) \/ ReserveFast(g) \/ ReserveSafeAdd(g) \/ ReserveSafeRefuse(g) \/ Pin(g) \/ Seal(g) \/ Abandon(g)
 
 Spec == Init /\ [][Next]_vars
 
@@ -117,5 +130,8 @@ Increasing == LockNeeded => \A i \in 1..(Len(order) - 1) : order[i] < order[i + 
 Accounted  == \A g \in Senders : pc[g] = "done" => (g \in refused) # (\E i \in 1..Len(order) : order[i] = mine[g])
 \* the counter never moves below the ceiling once it reached it (no wrap, pinning never lowers it)
 NoRewind   == [][ctr >= Ceiling => ctr' >= Ceiling]_vars
+\* below the ceiling the counter never moves backwards: a reserved counter is never handed back
+\* (at the ceiling Store(Ceiling) pins it, which may lower an overshoot back to the ceiling)
+Monotone   == [][ctr' >= ctr \/ (ctr >= Ceiling /\ ctr' = Ceiling)]_vars
 TypeOK     == ctr \in Nat /\ lock \in Senders \cup {None}
 =============================================================================
